@@ -48,6 +48,7 @@ var (
 	tail     = []byte{0xEE, 0xEE, 0xEE}
 	deadline time.Time
 	capped   int32
+	budget   int64 // executions allowed for the short-read walk of one (operation, input, source)
 )
 
 const exhaustiveLen = 12
@@ -108,7 +109,11 @@ func execRead(slot int, op *ReadOp, st []byte, cs *Case, c *engine.Chooser, altC
 		dev = &choiceSrc{data: st, c: c, a: altCap}
 		m.rec = true
 	case "fault":
-		dev = &engine.FaultReader{Data: st, K: cs.K, Err: faultErr(cs.Err), Style: cs.Style, Frag: cs.Frag}
+		if cs.Style == 2 {
+			dev = &transientReader{data: st, k: cs.K, err: faultErr(cs.Err)}
+		} else {
+			dev = &engine.FaultReader{Data: st, K: cs.K, Err: faultErr(cs.Err), Style: cs.Style, Frag: cs.Frag}
+		}
 	default:
 		engine.HarnessError("unknown mode %q", cs.Mode)
 	}
@@ -159,11 +164,21 @@ func verdictRead(op *ReadOp, data []byte, b *baseline, cs *Case, o *obs) (int, s
 		return same("short-reads/")
 	}
 	need := b.consumed
+	if op.ToEOF && cs.Style == 2 {
+		need++ // the operation also needs to see the end of the stream: a failing call there is inside it
+	}
 	switch {
 	case op.ToEOF && cs.K < len(data) && cs.Err == "eof":
 		// the value is delimited by the end of the stream: a stream that ends earlier is a shorter value
 		return vUnspec, "", ""
 	case cs.K < need:
+		if o.err == nil && cs.Style == 2 {
+			if v, _, _ := same(""); v == vOK {
+				// the operation rode out a temporary error and still produced the complete result:
+				// not a truncated or partially filled result
+				return vUnspec, "", ""
+			}
+		}
 		if o.err == nil {
 			return vViolation, "io-failure-swallowed", fmt.Sprintf("reader failed after %d of the %d bytes the operation needs, yet it returned nil error (value %s, contiguous value %s)", cs.K, need, show(o.val), show(b.val))
 		}
@@ -207,6 +222,14 @@ func judgeRead(slot int, op *ReadOp, inp *Input, b *baseline, cs Case, c *engine
 		return v
 	case vUnspec:
 		rep.Unspec(1)
+		switch {
+		case cs.Style == 2:
+			rep.Count("unspecified/transient-error-ridden-out-with-complete-result/"+op.class(), 1)
+		case op.ToEOF:
+			rep.Count("unspecified/eof-delimited-value-ended-early/"+op.class(), 1)
+		default:
+			rep.Count("unspecified/error-delivered-with-the-last-needed-bytes-was-reported/"+op.class(), 1)
+		}
 		return v
 	}
 	// name the site: same case, traced
@@ -219,7 +242,7 @@ func judgeRead(slot int, op *ReadOp, inp *Input, b *baseline, cs Case, c *engine
 	if ot.panicked {
 		site = ot.frame
 	}
-	class := "read/" + op.Name + "/" + clause + "/" + site
+	class := "read/" + op.class() + "/" + clause + "/" + site
 	size := len(inp.Data)*100000 + (len(cs.Cuts)+len(cs.Sizes))*100 + cs.K
 	if cs.Source == "bytereader" {
 		size += 50
@@ -241,6 +264,8 @@ func describe(cs *Case) string {
 		style := "error returned together with the last bytes"
 		if cs.Style == 1 {
 			style = "error returned by the call after the last bytes"
+		} else if cs.Style == 2 {
+			style = "one failing call, then the stream carries on"
 		}
 		fr := ""
 		if cs.Frag > 0 {
@@ -248,6 +273,9 @@ func describe(cs *Case) string {
 		}
 		return fmt.Sprintf("source=%s failing with %s after %d bytes (%s%s)", cs.Source, cs.Err, cs.K, style, fr)
 	case "wfault":
+		if cs.Style == 1 {
+			return fmt.Sprintf("writer accepting %d bytes, failing the Write that crosses that offset, and accepting everything afterwards", cs.K)
+		}
 		return fmt.Sprintf("writer accepting %d bytes and then failing", cs.K)
 	}
 	return cs.Mode
@@ -333,7 +361,20 @@ func exploreRead(slot int, op *ReadOp, inp *Input, b *baseline, bound int) {
 			if len(data) > 96 {
 				altCap = 4
 			}
-			stt := engine.Explore(engine.ExploreOpts{Bound: bound, Workers: 1, Deadline: deadline}, func(c *engine.Chooser) {
+			// measure the number A of one-deviation alternatives with a bound-0 walk (one execution),
+			// then walk to the largest bound <= the tier's bound whose estimated size A^b/b! fits the
+			// per-pair execution budget (deterministic; reported per bound in the counters)
+			var probe Case
+			st0 := engine.Explore(engine.ExploreOpts{Bound: 0, Workers: 1}, func(c *engine.Chooser) {
+				probe = Case{Mode: "choice", Source: src}
+				execRead(slot, op, st, &probe, c, altCap, false)
+			})
+			bnd := 1
+			for bnd < bound && estimate(st0.PrunedByBnd, bnd+1) <= budget {
+				bnd++
+			}
+			rep.Count(fmt.Sprintf("long_inputs_walked_to_short_read_bound_%d_(pairs_x_sources)", bnd), 1)
+			stt := engine.Explore(engine.ExploreOpts{Bound: bnd, Workers: 1, Deadline: deadline}, func(c *engine.Chooser) {
 				judgeRead(slot, op, inp, b, Case{Side: "read", Op: op.Name, Input: inp.ID, Source: src, Mode: "choice"}, c, altCap)
 			})
 			execs += stt.Executions
@@ -357,16 +398,22 @@ func exploreRead(slot int, op *ReadOp, inp *Input, b *baseline, bound int) {
 		if timeUp() {
 			return
 		}
-		// ---- faults: every offset x error x style x {contiguous, byte at a time}
+		// ---- faults: every offset x error x style x {contiguous, byte at a time (inputs <= 96 bytes)}
+		frags := []int{0, 1}
+		if len(data) > 96 {
+			frags = frags[:1]
+		}
 		for k := 0; k <= len(st); k++ {
 			for _, e := range []string{"eof", "injected"} {
 				for style := 0; style <= 1; style++ {
-					for _, frag := range []int{0, 1} {
+					for _, frag := range frags {
 						judgeRead(slot, op, inp, b, Case{Side: "read", Op: op.Name, Input: inp.ID, Source: src, Mode: "fault", K: k, Err: e, Style: style, Frag: frag}, nil, 0)
 						execs++
 					}
 				}
 			}
+			judgeRead(slot, op, inp, b, Case{Side: "read", Op: op.Name, Input: inp.ID, Source: src, Mode: "fault", K: k, Err: "injected", Style: 2}, nil, 0)
+			execs++
 		}
 		atomic.AddInt64(&cntFaultExec, execs)
 		rep.Eval(execs)
@@ -391,7 +438,11 @@ type wobs struct {
 
 func execWrite(slot int, in *WInput, k int, trace bool, cs *Case) wobs {
 	fw := &engine.FaultWriter{K: k, Err: engine.ErrInjected}
+	fl := &flakyWriter{k: k, err: engine.ErrInjected}
 	m := &wmeter{w: fw, trace: trace}
+	if cs.Style == 1 {
+		m.w = fl
+	}
 	var o wobs
 	if wd != nil {
 		wd.Begin(slot, func() string { b, _ := json.Marshal(cs); return string(b) })
@@ -401,6 +452,9 @@ func execWrite(slot int, in *WInput, k int, trace bool, cs *Case) wobs {
 		wd.End(slot)
 	}
 	o.out, o.calls, o.after, o.site = fw.Buf, m.calls, m.after, m.site
+	if cs.Style == 1 {
+		o.out = fl.buf
+	}
 	return o
 }
 
@@ -409,11 +463,15 @@ type wbaseline struct {
 	n   int64
 }
 
-func verdictWrite(b *wbaseline, k int, o *wobs) (int, string, string) {
+func verdictWrite(b *wbaseline, k, style int, o *wobs) (int, string, string) {
 	if o.panicked {
 		return vViolation, "panic/" + o.kind, fmt.Sprintf("panic %s in %s", o.kind, o.frame)
 	}
 	if k < len(b.out) {
+		if o.err == nil && style == 1 && bytes.Equal(o.out, b.out) {
+			// the operation re-sent what the failing Write had not accepted: nothing is missing
+			return vUnspec, "", ""
+		}
 		if o.err == nil {
 			return vViolation, "io-failure-swallowed", fmt.Sprintf("writer failed after accepting %d of the %d bytes the operation produces, yet it returned nil error", k, len(b.out))
 		}
@@ -438,8 +496,8 @@ func clipB(b []byte) []byte {
 	return b
 }
 
-func judgeWrite(slot int, op *WriteOp, in *WInput, b *wbaseline, k int) int {
-	cs := Case{Side: "write", Op: op.Name, Input: in.ID, Mode: "wfault", K: k}
+func judgeWrite(slot int, op *WriteOp, in *WInput, b *wbaseline, k, style int) int {
+	cs := Case{Side: "write", Op: op.Name, Input: in.ID, Mode: "wfault", K: k, Style: style}
 	o := execWrite(slot, in, k, false, &cs)
 	atomic.AddInt64(&cntCalls, int64(o.calls))
 	if k < len(b.out) {
@@ -448,12 +506,15 @@ func judgeWrite(slot int, op *WriteOp, in *WInput, b *wbaseline, k int) int {
 	if o.after > 0 {
 		rep.Count("write_ops_that_kept_writing_after_a_failed_write", 1)
 	}
-	v, clause, detail := verdictWrite(b, k, &o)
+	v, clause, detail := verdictWrite(b, k, style, &o)
+	if v == vUnspec {
+		rep.Unspec(1)
+	}
 	if v != vViolation {
 		return v
 	}
 	ot := execWrite(slot, in, k, true, &cs)
-	if v2, clause2, _ := verdictWrite(b, k, &ot); v2 != v || clause2 != clause {
+	if v2, clause2, _ := verdictWrite(b, k, style, &ot); v2 != v || clause2 != clause {
 		engine.HarnessError("nondeterministic: case %+v judged %q then %q", cs, clause, clause2)
 	}
 	site := ot.site
@@ -463,7 +524,7 @@ func judgeWrite(slot int, op *WriteOp, in *WInput, b *wbaseline, k int) int {
 	if site == "" {
 		site = "no-failing-write-observed"
 	}
-	rep.FailLazy("write/"+op.Name+"/"+clause+"/"+site, len(b.out)*1000+k, func() engine.Failure {
+	rep.FailLazy("write/"+op.Name+"/"+clause+"/"+site, len(b.out)*1000+k*2+style, func() engine.Failure {
 		return engine.Failure{Detail: fmt.Sprintf("%s of value %q (%d bytes of output) with a %s: %s", op.Name, in.ID, len(b.out), describe(&cs), detail), Case: cs}
 	})
 	return v
@@ -508,9 +569,9 @@ func main() {
 	rep = engine.NewReport("C09")
 	rep.Rule = "case = (operation, input, source kind {plain io.Reader, io.Reader+io.ByteReader}, environment). Environments per (operation, input): " +
 		"inputs <= 12 bytes: every set of segment boundaries inside the input x {boundary, no boundary} between input and sentinel tail (2^n; a Read returns min(asked, rest of segment) — this is every behaviour of a legal reader); " +
-		"longer inputs: every placement of <= B short reads (each shorter legal count is one deviation; for inputs > 96 bytes only the 4 smallest and 4 largest shorter counts per Read) plus chunkings of at most 1,2,3,5,7 bytes per Read; " +
-		"faults: every offset k in 0..len(input+tail) x {io.EOF, injected} x {error with the last bytes, error on the next call} x {contiguous, 1 byte per Read}; " +
-		"writers: failure after k accepted bytes for every k in 0..len(output). Cases are distinct by construction (nested loops / distinct choice tapes); " +
+		"longer inputs: every placement of <= b short reads (each shorter legal count is one deviation; for inputs > 96 bytes only the 4 smallest and 4 largest shorter counts per Read), b = the largest bound <= B whose estimated walk fits the per-pair budget (at least 1; see counters long_inputs_walked_to_short_read_bound_*), plus chunkings of at most 1,2,3,5,7 bytes per Read; " +
+		"faults: every offset k in 0..len(input+tail) x {io.EOF, injected} x {error with the last bytes, error on the next call} x {contiguous, 1 byte per Read (inputs <= 96 bytes)}; " +
+		"plus one transient failure (a single failing call at offset k, then the stream carries on) at every k; writers: for every k in 0..len(output) a writer that fails from offset k on and a writer that fails only the Write crossing offset k. Cases are distinct by construction (nested loops / distinct choice tapes); " +
 		"non-trivial = the environment actually deviated during the operation (some Read returned fewer bytes than asked or an error; writer failure inside the output)"
 	wd = engine.NewWatchdog(engine.Workers()+1, 30*time.Second, func(desc string) {
 		var c Case
@@ -520,9 +581,11 @@ func main() {
 		rep.Finish()
 	})
 	bound, genNodes := 2, 2
+	budget = 60_000
 	deadline = time.Now().Add(50 * time.Second)
 	if rep.Thorough() {
 		bound, genNodes = 3, 3
+		budget = 3_000_000
 		deadline = time.Now().Add(13 * time.Minute)
 	}
 	if rep.ReplayPath != "" {
@@ -584,9 +647,10 @@ func main() {
 	engine.ParallelFor(len(wtasks), func(slot, i int) {
 		t := wtasks[i]
 		for k := 0; k <= len(t.base.out); k++ {
-			judgeWrite(slot, t.op, t.in, t.base, k)
+			judgeWrite(slot, t.op, t.in, t.base, k, 0)
+			judgeWrite(slot, t.op, t.in, t.base, k, 1)
 		}
-		n := int64(len(t.base.out) + 1)
+		n := int64(2 * (len(t.base.out) + 1))
 		atomic.AddInt64(&cntWriteExec, n)
 		rep.Eval(n)
 	})
@@ -618,6 +682,7 @@ func main() {
 	rep.Count("executions_reader_faults", cntFaultExec)
 	rep.Count("executions_writer_faults", cntWriteExec)
 	rep.Extra("short_read_deviation_bound", bound)
+	rep.Extra("short_read_walk_budget_per_pair_and_source", budget)
 	rep.Extra("exhaustive_segmentation_up_to_bytes", exhaustiveLen)
 	rep.Extra("generated_nbt_tree_nodes", genNodes)
 	rep.Extra("sentinel_tail_bytes", len(tail))
@@ -628,6 +693,19 @@ func main() {
 	rep.Assume("a legal io.Reader returns at least 1 byte or an error (0, nil is not generated); operations are deterministic functions of the bytes received (checked: two contiguous runs agree)")
 	rep.Assume("which error is returned, and byte counts returned together with an error, are not judged; a failure delivered together with the last needed bytes (style 0, k == consumed) may or may not be reported")
 	rep.Finish()
+}
+
+// estimate is the size of a walk with a alternatives per level to deviation bound b: sum of a^i/i!.
+func estimate(a int64, b int) int64 {
+	total, term := int64(1), int64(1)
+	for i := 1; i <= b; i++ {
+		term = term * a / int64(i)
+		if term > 1<<40 {
+			return 1 << 40
+		}
+		total += term
+	}
+	return total
 }
 
 func cost(t readTask) int {
@@ -701,19 +779,32 @@ func selftest() {
 	drop := &WInput{ID: "x", Run: func(w io.Writer) (int64, error) { w.Write([]byte{1, 2, 3}); return -1, nil }}
 	keep := &WInput{ID: "x", Run: func(w io.Writer) (int64, error) { _, err := w.Write([]byte{1, 2, 3}); return -1, err }}
 	wb := &wbaseline{out: []byte{1, 2, 3}, n: -1}
-	bad, good := 0, 0
+	// dropping the error of a Write that is followed by another Write is only visible when the writer recovers
+	mid := &WInput{ID: "x", Run: func(w io.Writer) (int64, error) { w.Write([]byte{1, 2}); _, err := w.Write([]byte{3}); return -1, err }}
+	bad, good, midP, midT := 0, 0, 0, 0
 	for k := 0; k <= 3; k++ {
-		o := execWrite(0, drop, k, false, &Case{})
-		if v, _, _ := verdictWrite(wb, k, &o); v == vViolation {
-			bad++
-		}
-		o = execWrite(0, keep, k, false, &Case{})
-		if v, _, _ := verdictWrite(wb, k, &o); v == vViolation {
-			good++
+		for style := 0; style <= 1; style++ {
+			cs := &Case{Style: style}
+			o := execWrite(0, drop, k, false, cs)
+			if v, _, _ := verdictWrite(wb, k, style, &o); v == vViolation {
+				bad++
+			}
+			o = execWrite(0, keep, k, false, cs)
+			if v, _, _ := verdictWrite(wb, k, style, &o); v == vViolation {
+				good++
+			}
+			o = execWrite(0, mid, k, false, cs)
+			if v, _, _ := verdictWrite(wb, k, style, &o); v == vViolation {
+				if style == 0 {
+					midP++
+				} else {
+					midT++
+				}
+			}
 		}
 	}
-	if bad != 3 || good != 0 {
-		engine.HarnessError("self-test: writer oracle wrong (%d / %d)", bad, good)
+	if bad != 6 || good != 0 || midP != 0 || midT != 2 {
+		engine.HarnessError("self-test: writer oracle wrong (%d / %d / %d / %d)", bad, good, midP, midT)
 	}
 }
 
@@ -736,7 +827,7 @@ func replay(genNodes int) {
 					b := makeWBaseline(op, &op.Inputs[i])
 					fmt.Printf("replaying %s of %q: %s; an unlimited writer receives %d bytes\n", c.Op, c.Input, describe(&c), len(b.out))
 					for j := 0; j < 5; j++ {
-						judgeWrite(0, op, &op.Inputs[i], b, c.K)
+						judgeWrite(0, op, &op.Inputs[i], b, c.K, c.Style)
 					}
 					rep.Eval(5)
 					rep.Finish()
